@@ -7,6 +7,7 @@ import (
 	"sort"
 	"strconv"
 	"strings"
+	"unicode/utf8"
 
 	"github.com/aclements/go-moremath/graph"
 	"github.com/aclements/go-moremath/graph/graphalg"
@@ -46,6 +47,10 @@ type c18Dot struct {
 	Labels    [][]byte      `json:"labels"`     // nil: Dot.Label is nil
 	NodeAttrs [][]c18Attr   `json:"node_attrs"` // nil: Dot.NodeAttrs is nil
 	EdgeAttrs [][][]c18Attr `json:"edge_attrs"` // nil: Dot.EdgeAttrs is nil
+	// Shared != 0: the callbacks hand out sub-slices (with spare capacity) of
+	// one backing array holding all attribute lists back to back; 1 = in node
+	// order, 2 = in reverse node order.
+	Shared int `json:"shared,omitempty"`
 }
 
 type c18Sub struct {
@@ -67,8 +72,9 @@ type c18Case struct {
 	Eq    [][][]int   `json:"eq,omitempty"` // partners for Equal
 	Sub   *c18Sub     `json:"sub,omitempty"`
 	Dot   *c18Dot     `json:"dot,omitempty"`
-	Ops   [][2]int    `json:"ops,omitempty"` // marks history: {op, id}
-	S     []byte      `json:"s,omitempty"`   // DotString argument
+	Ops   [][2]int    `json:"ops,omitempty"`  // marks history: {op, id}
+	Zero  bool        `json:"zero,omitempty"` // marks history starts from the zero value, not NewNodeMarks()
+	S     []byte      `json:"s,omitempty"`    // DotString argument
 
 	noDistinct bool // bulk enumeration: do not store a hash per case
 }
@@ -200,7 +206,34 @@ func (j *c18J) desc() string {
 
 func (j *c18J) bad(kind, msg string) {
 	j.nbad++
-	j.w.Violate(kind, msg+"; "+j.desc(), j.c)
+	j.w.Violate(kind, c18Printable(msg)+"; "+j.desc(), j.c)
+}
+
+// c18Printable keeps a report readable as text: control bytes and invalid
+// UTF-8 taken over from hostile strings are written as \xNN.
+func c18Printable(s string) string {
+	clean := true
+	for _, r := range s {
+		if r < 0x20 || r == 0x7f || r == utf8.RuneError {
+			clean = false
+			break
+		}
+	}
+	if clean {
+		return s
+	}
+	var b strings.Builder
+	for i := 0; i < len(s); {
+		r, sz := utf8.DecodeRuneInString(s[i:])
+		if r < 0x20 || r == 0x7f || (r == utf8.RuneError && sz <= 1) {
+			fmt.Fprintf(&b, "\\x%02x", s[i])
+			sz = 1
+		} else {
+			b.WriteString(s[i : i+sz])
+		}
+		i += sz
+	}
+	return b.String()
 }
 
 // call runs one library call under panic capture.
@@ -632,6 +665,8 @@ func (j *c18J) simplify(wt [][]float64) {
 		for u, l := range j.adj {
 			out := s.Out(u)
 			w.Eval("simplified.Out")
+			dyadic := wt == nil || c18SmallDyadic(wt[u])
+			w.HitIf(!dyadic, "weighted-nondyadic")
 			distinct := 0
 			for k, v := range l {
 				first := true
@@ -656,12 +691,15 @@ func (j *c18J) simplify(wt [][]float64) {
 						return
 					}
 				}
-				sum, cnt := 0.0, 0
+				sum, sumAbs, cnt := 0.0, 0.0, 0
+				var part []float64
 				for k, v := range l {
 					if v == t {
 						cnt++
 						if wt != nil {
 							sum += wt[u][k]
+							sumAbs += math.Abs(wt[u][k])
+							part = append(part, wt[u][k])
 						} else {
 							sum++
 						}
@@ -676,9 +714,28 @@ func (j *c18J) simplify(wt [][]float64) {
 				}
 				got := s.OutWeight(u, e)
 				w.Eval("simplified.OutWeight")
-				// weights are dyadic with small numerators: every summation order is exact
-				if !w.Err("simplify-weight", math.Abs(got-sum), 0) {
-					problem = fmt.Sprintf("node %d: merged edge to %d has weight %v, the %d parallel edges sum to %v", u, t, got, cnt, sum)
+				if wt == nil || cnt == 1 || dyadic {
+					// an edge without parallel partner keeps its weight; counts and
+					// small dyadic weights sum exactly in every order
+					if !w.Err("simplify-weight", math.Abs(got-sum), 0) {
+						if cnt == 1 {
+							problem = fmt.Sprintf("node %d: the edge to %d has weight %v; it has no parallel partner and its weight in the graph is %v", u, t, got, sum)
+						} else {
+							problem = fmt.Sprintf("node %d: merged edge to %d has weight %v, the %d parallel edges sum to %v exactly (weights %v)", u, t, got, cnt, sum, part)
+						}
+						return
+					}
+					continue
+				}
+				// general weights: the exact sum, and an allowance of four times
+				// the worst-case rounding (cnt-1)*2^-53*sum|w| of a floating-point
+				// summation in any order
+				w.Hit("weighted-parallel-inexact-sum")
+				exact, spread := ref.GExactSum(part)
+				w.HitIf(spread >= 60, "weighted-parallel-wide-magnitudes")
+				tol := 4 * float64(cnt-1) * 0x1p-53 * sumAbs
+				if !w.Err("simplify-weight-rounded", ref.GAbsDiffExact(got, exact), tol) {
+					problem = fmt.Sprintf("node %d: merged edge to %d has weight %v, the %d parallel edges with weights %v sum to %v (allowance %.3g)", u, t, got, cnt, part, ref.GFloat(exact), tol)
 					return
 				}
 			}
@@ -851,6 +908,25 @@ func (j *c18J) sub() {
 			}
 		}
 		w.HitIf(shifted, "subgraph-remove-edge-index-shift")
+		{
+			cnt := map[int]int{}
+			minDup := -1
+			for _, u := range s.RmNodes {
+				cnt[u]++
+				if cnt[u] == 2 && (minDup < 0 || u < minDup) {
+					minDup = u
+				}
+			}
+			w.HitIf(minDup >= 0, "subgraph-remove-repeated-node")
+			if minDup >= 0 {
+				above := false
+				for e := range want {
+					above = above || j.adj[e[0]][e[1]] > minDup
+				}
+				w.HitIf(above, "subgraph-remove-repeated-node-below-kept-edge-target")
+			}
+			w.HitIf(len(rm) < len(s.RmEdges), "subgraph-remove-repeated-edge")
+		}
 		w.HitIf(len(s.RmNodes) > 0 && nk > 0 && !kept[0], "subgraph-remove-node-id-shift")
 		nodes := append([]int(nil), s.RmNodes...)
 		var sg graph.Subgraph
@@ -966,11 +1042,157 @@ func c18ConvAttrs(as []c18Attr) []graphout.DotAttr {
 	return out
 }
 
-// c18StrMatch: a string must come back from the text unchanged. A quoted
-// token is compared after unescaping; a bare word is accepted when it is the
-// string itself.
+// c18SharedAttrs lays every attribute list of a Dot case out in one backing
+// array; region r of the array is all[r[0]:r[1]] and a callback returns that
+// sub-slice, whose capacity runs on into the following regions.
+type c18SharedAttrs struct {
+	all, pristine     []graphout.DotAttr
+	node              [][2]int
+	edge              [][][2]int
+	regions           [][2]int // in layout order
+	used              int      // all[used:] is spare
+	labelBeforeRegion bool     // a node list without label is followed by a non-empty region
+}
+
+func c18BuildShared(d *c18Dot, adj [][]int) *c18SharedAttrs {
+	n := len(adj)
+	sh := &c18SharedAttrs{}
+	if d.NodeAttrs != nil {
+		sh.node = make([][2]int, n)
+	}
+	if d.EdgeAttrs != nil {
+		sh.edge = make([][][2]int, n)
+	}
+	pendingNoLabel := false
+	place := func(as []c18Attr, isNode bool) [2]int {
+		lo := len(sh.all)
+		sh.all = append(sh.all, c18ConvAttrs(as)...)
+		hi := len(sh.all)
+		sh.regions = append(sh.regions, [2]int{lo, hi})
+		if hi > lo {
+			if pendingNoLabel {
+				sh.labelBeforeRegion = true
+			}
+			pendingNoLabel = false
+		}
+		if isNode {
+			has := false
+			for _, a := range as {
+				has = has || a.Name == "label"
+			}
+			if !has {
+				pendingNoLabel = true
+			}
+		}
+		return [2]int{lo, hi}
+	}
+	for k := 0; k < n; k++ {
+		u := k
+		if d.Shared == 2 {
+			u = n - 1 - k
+		}
+		if d.NodeAttrs != nil {
+			sh.node[u] = place(d.NodeAttrs[u], true)
+		}
+		if d.EdgeAttrs != nil {
+			sh.edge[u] = make([][2]int, len(adj[u]))
+			for e := range adj[u] {
+				sh.edge[u][e] = place(d.EdgeAttrs[u][e], false)
+			}
+		}
+	}
+	sh.used = len(sh.all)
+	sh.all = append(sh.all, graphout.DotAttr{Name: "spare0", Val: 0}, graphout.DotAttr{Name: "spare1", Val: 1})
+	sh.pristine = append([]graphout.DotAttr(nil), sh.all...)
+	return sh
+}
+
+func c18SameDotAttr(a, b graphout.DotAttr) bool {
+	if a.Name != b.Name {
+		return false
+	}
+	if x, ok := a.Val.(float64); ok {
+		y, ok := b.Val.(float64)
+		return ok && math.Float64bits(x) == math.Float64bits(y)
+	}
+	switch a.Val.(type) {
+	case string, int, uint, graphout.DotLiteral:
+		return a.Val == b.Val
+	}
+	return false
+}
+
+// verify compares the backing array with its state before the call:
+// "violation" when an attribute list has lost or changed an element,
+// "reordered" when lists were only permuted in place, "spare-written" when
+// only the unused tail changed (neither of the latter two is judged).
+func (sh *c18SharedAttrs) verify() (kind, msg string) {
+	for _, r := range sh.regions {
+		same := true
+		for k := r[0]; k < r[1]; k++ {
+			same = same && c18SameDotAttr(sh.all[k], sh.pristine[k])
+		}
+		if same {
+			continue
+		}
+		used := make([]bool, r[1]-r[0])
+		for k := r[0]; k < r[1]; k++ {
+			found := false
+			for q := r[0]; q < r[1]; q++ {
+				if !used[q-r[0]] && c18SameDotAttr(sh.all[k], sh.pristine[q]) {
+					used[q-r[0]] = true
+					found = true
+					break
+				}
+			}
+			if !found {
+				return "violation", fmt.Sprintf("the attribute lists returned by the callbacks are sub-slices of one array; after the call element %d of that array (part of the list at [%d:%d]) is %+v, it was %+v: the caller's attributes of another node or edge were overwritten", k, r[0], r[1], sh.all[k], sh.pristine[k])
+			}
+		}
+		kind = "reordered"
+	}
+	if kind == "" {
+		for k := sh.used; k < len(sh.all); k++ {
+			if !c18SameDotAttr(sh.all[k], sh.pristine[k]) {
+				kind = "spare-written"
+			}
+		}
+	}
+	return kind, ""
+}
+
+// c18StrMatch: a string must be written as a quoted string whose unescaped
+// content is the string itself ("strings quoted so that unescaping restores
+// them"). A bare word is not accepted for a string: whether a bare word is a
+// legal dot ID depends on the word (node, edge, graph, digraph, subgraph and
+// strict are reserved, case-insensitively), quoting never does.
 func c18StrMatch(v ref.DotVal, s string) bool {
-	return v.Text == s && (v.Quoted || s != "")
+	return v.Quoted && v.Text == s
+}
+
+// c18DefaultLabelMatch: with Dot.Label == nil a node is labelled with its
+// number; the numeral may be written quoted or as a bare numeral.
+func c18DefaultLabelMatch(v ref.DotVal, u int) bool {
+	return v.Text == strconv.Itoa(u)
+}
+
+var c18Reserved = map[string]bool{"node": true, "edge": true, "graph": true, "digraph": true, "subgraph": true, "strict": true}
+
+// c18PlainWord: the string is a plain dot identifier, the kind a printer
+// could be tempted to leave unquoted; reserved reports a dot keyword.
+func c18PlainWord(s []byte) (plain, reserved bool) {
+	if len(s) == 0 {
+		return false, false
+	}
+	for i, c := range s {
+		switch {
+		case 'a' <= c && c <= 'z', 'A' <= c && c <= 'Z', c == '_':
+		case '0' <= c && c <= '9' && i > 0:
+		default:
+			return false, false
+		}
+	}
+	return true, c18Reserved[strings.ToLower(string(s))]
 }
 
 func c18AttrMatch(p ref.DotAttrP, a c18Attr) bool {
@@ -980,6 +1202,8 @@ func c18AttrMatch(p ref.DotAttrP, a c18Attr) bool {
 	switch a.K {
 	case "s":
 		return c18StrMatch(p.Val, string(a.S))
+	case "d": // default label of node a.I
+		return c18DefaultLabelMatch(p.Val, int(a.I))
 	case "i":
 		x, err := strconv.ParseInt(p.Val.Text, 10, 64)
 		return !p.Val.Quoted && err == nil && x == a.I
@@ -1045,12 +1269,52 @@ func (j *c18J) dot() {
 			litbn = litbn || strings.Contains(string(l), `\n`)
 		}
 	}
+	var sh *c18SharedAttrs
+	if d.Shared != 0 && (d.NodeAttrs != nil || d.EdgeAttrs != nil) {
+		sh = c18BuildShared(d, j.adj)
+		w.Hit("dot-shared-attr-array")
+		w.HitIf(sh.labelBeforeRegion, "dot-shared-label-append-before-next-region")
+	}
 	if d.NodeAttrs != nil {
-		spec.NodeAttrs = func(i int) []graphout.DotAttr { return c18ConvAttrs(d.NodeAttrs[i]) }
+		if sh != nil {
+			spec.NodeAttrs = func(i int) []graphout.DotAttr { r := sh.node[i]; return sh.all[r[0]:r[1]] }
+		} else {
+			spec.NodeAttrs = func(i int) []graphout.DotAttr { return c18ConvAttrs(d.NodeAttrs[i]) }
+		}
 	}
 	if d.EdgeAttrs != nil {
-		spec.EdgeAttrs = func(i, e int) []graphout.DotAttr { return c18ConvAttrs(d.EdgeAttrs[i][e]) }
+		if sh != nil {
+			spec.EdgeAttrs = func(i, e int) []graphout.DotAttr { r := sh.edge[i][e]; return sh.all[r[0]:r[1]] }
+		} else {
+			spec.EdgeAttrs = func(i, e int) []graphout.DotAttr { return c18ConvAttrs(d.EdgeAttrs[i][e]) }
+		}
 	}
+	// strings a printer could be tempted to write without quotes
+	plain, reserved := c18PlainWord(d.Name)
+	for _, l := range d.Labels {
+		p, r := c18PlainWord(l)
+		plain, reserved = plain || p, reserved || r
+	}
+	for _, as := range d.NodeAttrs {
+		for _, a := range as {
+			if a.K == "s" {
+				p, r := c18PlainWord(a.S)
+				plain, reserved = plain || p, reserved || r
+			}
+		}
+	}
+	for _, es := range d.EdgeAttrs {
+		for _, as := range es {
+			for _, a := range as {
+				if a.K == "s" {
+					p, r := c18PlainWord(a.S)
+					plain, reserved = plain || p, reserved || r
+				}
+			}
+		}
+	}
+	w.HitIf(plain, "dot-string-is-plain-identifier")
+	w.HitIf(reserved, "dot-string-is-reserved-word")
 	w.HitIf(hostile, "dot-hostile-string")
 	w.HitIf(litbn, "dot-literal-backslash-n")
 	w.HitIf(d.Labels == nil, "dot-default-labels")
@@ -1066,6 +1330,15 @@ func (j *c18J) dot() {
 		}
 		j.bad(kind, fmt.Sprintf("Dot.Sprint: %s; output %q", msg, t))
 	}
+	if sh != nil {
+		// the caller's attribute storage is input: the attribute lists of the
+		// other nodes and edges must still be there after the call
+		if kind, msg := sh.verify(); kind == "violation" {
+			fail("dot-attr-alias", msg)
+		} else if kind != "" {
+			w.Note("dot-shared-array-" + kind)
+		}
+	}
 	f, err := ref.DotParse(text)
 	if err != nil {
 		fail("dot-syntax", "output cannot be read back: "+err.Error())
@@ -1073,7 +1346,7 @@ func (j *c18J) dot() {
 	}
 	if f.HasName {
 		if !c18StrMatch(f.Name, string(d.Name)) {
-			fail("dot-string", fmt.Sprintf("graph name reads back as %q, it is %q", f.Name.Text, d.Name))
+			fail("dot-string", fmt.Sprintf("graph name reads back as %s, it is the string %q (a string must be written quoted)", c18ValStr(f.Name), d.Name))
 		}
 	} else if len(d.Name) != 0 {
 		fail("dot-string", fmt.Sprintf("graph name %q is missing", d.Name))
@@ -1109,11 +1382,11 @@ func (j *c18J) dot() {
 		if haveLabel {
 			w.Hit("dot-label-from-attrs")
 		} else {
-			lab := []byte(strconv.Itoa(u))
 			if d.Labels != nil {
-				lab = d.Labels[u]
+				want = append(want, c18Attr{Name: "label", K: "s", S: d.Labels[u]})
+			} else {
+				want = append(want, c18Attr{Name: "label", K: "d", I: int64(u)})
 			}
-			want = append(want, c18Attr{Name: "label", K: "s", S: lab})
 		}
 		if !c18AttrsMatch(st.Attrs, want) {
 			fail("dot-string", fmt.Sprintf("node %d: attributes read back as %+v, expected %s", u, st.Attrs, c18AttrStr(want)))
@@ -1155,6 +1428,13 @@ func (j *c18J) dot() {
 	}
 }
 
+func c18ValStr(v ref.DotVal) string {
+	if v.Quoted {
+		return fmt.Sprintf("quoted %q", v.Text)
+	}
+	return fmt.Sprintf("bare word %s", v.Text)
+}
+
 func c18AttrStr(as []c18Attr) string {
 	var b strings.Builder
 	b.WriteString("[")
@@ -1165,6 +1445,8 @@ func c18AttrStr(as []c18Attr) string {
 		switch a.K {
 		case "s":
 			fmt.Fprintf(&b, "%s=string %q", a.Name, a.S)
+		case "d":
+			fmt.Fprintf(&b, "%s=node number %d", a.Name, a.I)
 		case "i":
 			fmt.Fprintf(&b, "%s=int %d", a.Name, a.I)
 		case "u":
@@ -1216,10 +1498,18 @@ const (
 
 func c18JudgeMarks(w *mon.W, c *c18Case) {
 	var m *graphalg.NodeMarks
-	w.Eval("NewNodeMarks")
-	if p, v := mon.Call(func() { m = graphalg.NewNodeMarks() }); p || m == nil {
-		w.Violate("panic", fmt.Sprintf("NewNodeMarks panicked or returned nil: %v", v), c)
-		return
+	start := "NewNodeMarks()"
+	if c.Zero {
+		// the type is exported and its zero value is an empty set
+		m = new(graphalg.NodeMarks)
+		start = "the zero value (var m NodeMarks)"
+		w.Hit("marks-zero-value-start")
+	} else {
+		w.Eval("NewNodeMarks")
+		if p, v := mon.Call(func() { m = graphalg.NewNodeMarks() }); p || m == nil {
+			w.Violate("panic", fmt.Sprintf("NewNodeMarks panicked or returned nil: %v", v), c)
+			return
+		}
 	}
 	set := map[int]bool{}
 	var sorted []int
@@ -1320,7 +1610,7 @@ func c18JudgeMarks(w *mon.W, c *c18Case) {
 		}
 		return true
 	}
-	hash := mon.NewHasher().S("marks")
+	hash := mon.NewHasher().S("marks").B(c.Zero)
 	for step, op := range c.Ops {
 		i := op[1]
 		hash = hash.I(op[0]).I(i)
@@ -1330,6 +1620,8 @@ func c18JudgeMarks(w *mon.W, c *c18Case) {
 			case c18Mark:
 				w.HitIf(i >= 1024, "mark-id>=1024")
 				w.HitIf(i >= 1024 && maxEver >= 0 && i/32 >= 2*(maxEver/32+1), "mark-jump-over-growth-step")
+				w.HitIf(c.Zero && maxEver < 0, "zero-value-first-mark")
+				w.HitIf(c.Zero && i > maxEver && i > 0 && i < 1024 && i%32 == 0 && (i/32)&(i/32-1) == 0, "zero-value-mark-at-power-of-two-word")
 				cur = fmt.Sprintf("Mark(%d)", i)
 				w.Eval("NodeMarks.Mark")
 				m.Mark(i)
@@ -1391,9 +1683,9 @@ func c18JudgeMarks(w *mon.W, c *c18Case) {
 				hist = "..." + hist[len(hist)-300:]
 			}
 			if panicked {
-				w.Violate("panic-NodeMarks", fmt.Sprintf("NodeMarks.%s panicked: %v; history {op,id} (0 Mark,1 Unmark,2 Test,3 Next,4 iterate) %s", cur, pv, hist), &cc)
+				w.Violate("panic-NodeMarks", fmt.Sprintf("NodeMarks.%s panicked: %v; history from %s, {op,id} (0 Mark,1 Unmark,2 Test,3 Next,4 iterate) %s", cur, pv, start, hist), &cc)
 			} else {
-				w.Violate("marks", fmt.Sprintf("NodeMarks: %s; history {op,id} (0 Mark,1 Unmark,2 Test,3 Next,4 iterate) %s", problem, hist), &cc)
+				w.Violate("marks", fmt.Sprintf("NodeMarks: %s; history from %s, {op,id} (0 Mark,1 Unmark,2 Test,3 Next,4 iterate) %s", problem, start, hist), &cc)
 			}
 			break
 		}
@@ -1407,7 +1699,7 @@ func c18JudgeMarks(w *mon.W, c *c18Case) {
 		if k > 12 {
 			k = 12
 		}
-		w.Sample(map[string]any{"kind": "marks", "ops": len(c.Ops), "first_ops": c.Ops[:k], "final_set_size": len(sorted), "max_id": maxEver})
+		w.Sample(map[string]any{"kind": "marks", "zero_value_start": c.Zero, "ops": len(c.Ops), "first_ops": c.Ops[:k], "final_set_size": len(sorted), "max_id": maxEver})
 	}
 }
 
@@ -1522,7 +1814,7 @@ var c18Pieces = []string{`"`, `\`, `{`, `}`, `<`, `>`, `|`, "\n", `\n`, `\"`, `\
 
 func c18HostileStr(rng *mon.Rand) []byte {
 	if rng.Intn(5) == 0 {
-		return []byte([]string{"", "x", "node", "a b", "main.f", "3.5"}[rng.Intn(6)])
+		return []byte([]string{"", "x", "node", "a b", "main.f", "3.5", "graph", "Edge", "strict", "subgraph", "DiGraph", "_x1", "node"}[rng.Intn(13)])
 	}
 	var b []byte
 	for k := rng.Intn(8); k >= 0; k-- {
@@ -1598,6 +1890,9 @@ func c18RandDot(rng *mon.Rand, adj [][]int) *c18Dot {
 			}
 		}
 	}
+	if rng.Intn(3) == 0 {
+		d.Shared = 1 + rng.Intn(3)/2
+	}
 	return d
 }
 
@@ -1640,6 +1935,13 @@ func c18RandSub(rng *mon.Rand, adj [][]int) *c18Sub {
 			s.RmNodes = append(s.RmNodes, u)
 		}
 	}
+	// removal is by set: naming a node or an edge more than once (e.g. the
+	// concatenation of two overlapping lists) changes nothing
+	if len(s.RmNodes) > 0 && rng.Intn(3) == 0 {
+		for k := 1 + rng.Intn(3); k > 0; k-- {
+			s.RmNodes = append(s.RmNodes, s.RmNodes[rng.Intn(len(s.RmNodes))])
+		}
+	}
 	rng.ShuffleI(s.RmNodes)
 	q = ps[rng.Intn(4)]
 	for u, l := range adj {
@@ -1647,6 +1949,11 @@ func c18RandSub(rng *mon.Rand, adj [][]int) *c18Sub {
 			if rng.Float64() < q {
 				s.RmEdges = append(s.RmEdges, [2]int{u, k})
 			}
+		}
+	}
+	if len(s.RmEdges) > 0 && rng.Intn(3) == 0 {
+		for k := 1 + rng.Intn(3); k > 0; k-- {
+			s.RmEdges = append(s.RmEdges, s.RmEdges[rng.Intn(len(s.RmEdges))])
 		}
 	}
 	c18ShuffleEdges(rng, s.RmEdges)
@@ -1729,12 +2036,28 @@ func c18EqPartners(rng *mon.Rand, adj [][]int) [][][]int {
 	return out
 }
 
+// c18RandWeights draws edge weights: small dyadic numbers (every sum is
+// exact in any order), or numbers that need all 53 bits and span many
+// magnitudes (sums are judged with a rounding allowance).
 func c18RandWeights(rng *mon.Rand, adj [][]int) [][]float64 {
 	wt := make([][]float64, len(adj))
+	mode := rng.Intn(5) // 0,1 dyadic; 2 decimal fractions; 3 wide magnitudes; 4 mixed
 	for u, l := range adj {
 		wt[u] = make([]float64, len(l))
 		for k := range l {
-			x := float64(rng.Intn(129)) / 8 // dyadic, 0..16
+			m := mode
+			if m == 4 {
+				m = 1 + rng.Intn(3)
+			}
+			var x float64
+			switch m {
+			case 0, 1:
+				x = float64(rng.Intn(129)) / 8 // dyadic, 0..16
+			case 2:
+				x = rng.Pick(0.1, 0.2, 0.3, 1.0/3, 2.0/3, 0.7, 1e-3, math.Pi, 1<<24+1, 1<<53-1, 1e9+0.5, float64(rng.Intn(1000))/10, rng.Float64())
+			default:
+				x = rng.Pick(1e-50, 1e50, 2.5e-40, 3e38, 7e-46, 1e-30, 1e30, 1, 0.1, rng.LogUniform(1e-50, 1e50), rng.LogUniform(1e-50, 1e50))
+			}
 			if rng.Intn(6) == 0 {
 				x = -x
 			}
@@ -1742,6 +2065,17 @@ func c18RandWeights(rng *mon.Rand, adj [][]int) [][]float64 {
 		}
 	}
 	return wt
+}
+
+// c18SmallDyadic: every weight is a multiple of 1/8 of magnitude <= 1024, so
+// that any sum of fewer than 2^30 of them is exact in every order.
+func c18SmallDyadic(ws []float64) bool {
+	for _, x := range ws {
+		if !(math.Abs(x) <= 1024) || x*8 != math.Trunc(x*8) {
+			return false
+		}
+	}
+	return true
 }
 
 // c18FillExtras adds the seeded parts of a small-graph case.
@@ -1933,6 +2267,13 @@ func c18GenMarks(rng *mon.Rand, idx int) [][2]int {
 		return draw()
 	}
 	var ops [][2]int
+	if idx%3 == 0 && (idx/3)%2 == 0 {
+		// (zero-value histories) the first Mark lands on or next to a word
+		// count that is a power of two
+		i := 32<<uint(rng.Intn(5)) + rng.PickI(0, 0, 0, -1, 1)
+		ever = append(ever, i)
+		ops = append(ops, [2]int{c18Mark, i}, [2]int{c18Iter, 0})
+	}
 	if idx%4 == 1 {
 		// Unmark far beyond anything ever marked, on a fresh set
 		ops = append(ops, [2]int{c18Unmark, 4096 + rng.Intn(100000)}, [2]int{c18Iter, 0})
@@ -1990,13 +2331,22 @@ func c18Run(r *mon.Run) {
 	r.Rule("graphs: every digraph on <=4 nodes (adjacency matrix, self-loops included) and every multigraph on <=3 nodes with out-degree <=3 in every adjacency order, each with every root and all oracles; digraphs on 5 nodes (quick: fixed 2^17 subsample, thorough: all 2^25) with orders/Euler/SCC/SimplifyMulti/MakeBiGraph; all ordered pairs of multigraphs on <=2 nodes for Equal; seeded random multigraphs <=60 nodes; structured graphs of 1000..100000 nodes; NodeMarks histories against a set model; DotString on all strings of <=3 bytes over a 14-byte hostile alphabet plus seeded hostile strings. Non-trivial: a case hitting any class; distinct by hash of the graph, roots and selections (or of the history/string).")
 	r.Assume("reference: iterative definitional DFS, BFS reachability, mutual-reachability SCC (<=64 nodes) and iterative Kosaraju (large), cross-checked at start-up; Dot text is read back by a small tokenizer/parser with backslash unescaping",
 		"Dot node ids are assumed to be written n<i>; attribute and edge order in the text is free",
-		"in-domain inputs only: node ids >= 0 for Mark/Unmark, SubgraphKeep edges between kept nodes without duplicates")
+		"in-domain inputs only: node ids >= 0 for Mark/Unmark, SubgraphKeep edges between kept nodes without duplicates (SubgraphRemove lists may repeat entries: removal is by set)",
+		"strings (graph name, Label results, string attribute values) must appear as quoted strings; int/uint/float64/DotLiteral values as bare words; the default label (Label nil) may be a quoted or a bare numeral",
+		"merged weights: exact for an edge without parallel partner, for unweighted graphs and for small dyadic weights; otherwise within 4*(cnt-1)*2^-53*sum|w| of the exact sum",
+		"NodeMarks histories start from NewNodeMarks() or from the zero value of the exported type",
+		"the slices returned by NodeAttrs/EdgeAttrs may share one backing array and have spare capacity: the elements of other lists must not be overwritten")
 	r.Gate("node-id>=1024-visited", "parallel-edges", "self-loop-on-root", "unreachable-nodes",
 		"scc-multi-edge-between-components", "unmark-beyond-capacity",
 		"first-visited-id>=1024", "mark-id>=1024", "mark-jump-over-growth-step",
 		"dot-hostile-string", "dot-literal-backslash-n", "dot-label-from-attrs", "dot-edge-attrs",
 		"subgraph-remove-edge-index-shift", "subgraph-remove-node-id-shift", "subgraph-keep-permuted-nodes",
-		"equal-same-set-different-multiset", "equal-true-permuted-lists", "weighted-parallel")
+		"equal-same-set-different-multiset", "equal-true-permuted-lists", "weighted-parallel",
+		"weighted-nondyadic", "weighted-parallel-inexact-sum", "weighted-parallel-wide-magnitudes",
+		"marks-zero-value-start", "zero-value-first-mark", "zero-value-mark-at-power-of-two-word",
+		"subgraph-remove-repeated-node", "subgraph-remove-repeated-node-below-kept-edge-target", "subgraph-remove-repeated-edge",
+		"dot-string-is-plain-identifier", "dot-string-is-reserved-word",
+		"dot-shared-attr-array", "dot-shared-label-append-before-next-region")
 	if err := ref.GSelfTest(); err != nil {
 		r.Inconclusive("reference self-test failed: " + err.Error())
 		return
@@ -2134,7 +2484,8 @@ func c18Run(r *mon.Run) {
 
 	// F: NodeMarks histories
 	r.Parallel("marks-histories", r.Pick(4000, 40000), func(w *mon.W, i int) {
-		c := &c18Case{Kind: "marks", Ops: c18GenMarks(w.Rng, i)}
+		// a third of the histories start from the zero value of the exported type
+		c := &c18Case{Kind: "marks", Ops: c18GenMarks(w.Rng, i), Zero: i%3 == 0}
 		c18Judge(w, c)
 	})
 
